@@ -86,7 +86,7 @@ type VarDecl struct {
 type Program struct {
 	Vars  []VarDecl `json:"vars,omitempty"`
 	Stmts []Stmt    `json:"stmts,omitempty"`
-	Style int       `json:"style,omitempty"` // 0: multi-line, 1: compact
+	Style int       `json:"style,omitempty"` // 0: multi-line, 1: compact, 2: tight (no optional white space in source lists and argument lists)
 	// Trailer is a comment printed after the last statement (a script may end in a `//` line
 	// comment, whose terminating newline is then the last byte of the text)
 	Trailer string `json:"trailer,omitempty"`
@@ -163,7 +163,7 @@ func (p *printer) w(s string) {
 }
 
 func (p *printer) nl() {
-	if p.style == 1 {
+	if p.style >= 1 {
 		p.w(" ")
 		return
 	}
@@ -234,11 +234,18 @@ func (p *printer) src(s *Src) {
 		p.w("{")
 		p.ind++
 		for i := range s.Subs {
-			p.nl()
+			// style 2 ("tight"): no white space where the grammar needs none -- {@a$b{@c}}
+			sub := &s.Subs[i]
+			sigil := sub.K == "seq" || (sub.K == "acc" || sub.K == "unb" || sub.K == "bnd") && sub.E != nil && (sub.E.K == "acc" || sub.E.K == "var")
+			if !(p.style == 2 && sigil) {
+				p.nl()
+			}
 			p.src(&s.Subs[i])
 		}
 		p.ind--
-		p.nl()
+		if p.style != 2 {
+			p.nl()
+		}
 		p.w("}")
 	case "cap":
 		p.w("max ")
@@ -311,7 +318,11 @@ func (p *printer) call(fn string, args []Expr, ctx string) {
 	p.w("(")
 	for i := range args {
 		if i > 0 {
-			p.w(", ")
+			if p.style == 2 {
+				p.w(",")
+			} else {
+				p.w(", ")
+			}
 		}
 		p.expr(&args[i])
 	}
